@@ -181,12 +181,28 @@ def graph_obligations(fw):
         shutil.rmtree(m.dir, ignore_errors=True)
     vfw.pmap(one, shapes, 14)
     fw.log('graph shapes done:', len(shapes))
+    # expired entries: a destroyed equivalent variable before / between / after the live ones, then one removal
+    def exp(when):
+        defs = ['VSTD_STR_CAP=23', 'VSTD_VEC_CAP=4', 'WHEN=%d' % when]
+        m = fw.build_model('gexp%d' % when, HG, ['h_expired'], defines=defs)
+        us = fw.unwindset(m, 'h_expired', vfw.std_rules())
+        r = fw.cbmc(m, 'h_expired', unwind=7, unwindset=us, timeout=900, label='h_expired[destroyed variable at position %d]' % when, symbolic='which equivalence is removed')
+        if r['status'] != 'SUCCESS':
+            fw.log('h_expired', when, r['status'], r['wall'], [(f['msg'], f['inputs']) for f in r['failed']][:3])
+        fw.handle(r, HG, defs, best_effort=(when == 1))
+        if when == 0:
+            mw = fw.build_model('gexpw', HG, ['h_expired'], defines=defs + ['WITNESS'])
+            fw.witness(mw, 'h_expired', unwind=7, unwindset=us, timeout=900, label='witness:h_expired')
+        fw.differential(m, 'h_expired', HG, vectors=[[0], [1]], defines=defs)
+    if fw.tier == 'thorough':
+        # 10-15 min per position: thorough tier only (position 1 has exhausted 12 GB once: attempted, not required)
+        vfw.pmap(exp, [0, 1, 2], 3)
 
 
 def run(fw):
     fw.assumptions += ['addresses: 8-byte aligned, 4096 <= a < 2^47 (x86-64 user space); no further bound on the key query',
                        'h_cache: utilities.cpp:areEquivalentVariables is replaced by an oracle for two scripted pairs (the graph search itself is checked by h_graph)',
-                       'h_graph: 3 (quick) / 4 (thorough) variables; every subset of the possible equivalences; every queried pair']
+                       'h_graph: 4 variables; every subset of the 6 possible equivalences (one query per subset), one removal; the queried pair is symbolic', 'h_expired: weak-pointer expiry is modelled (no-destroy mode: the object expires, its destructor is not run; Variable has no destructor side effects)']
     key_obligations(fw)
     # the real memoised function, addresses symbolic
     defs = ['VSTD_STR_CAP=23']
